@@ -75,6 +75,8 @@ def run_checks(sid, props, runs=None):
                 cmd += ["--runs", str(runs)]
             e = dict(os.environ)
             e["PHYST_SRC"] = src
+            if runs:
+                e["HISTSIM_TRIAGE"] = "brief"
             r = subprocess.run(cmd, env=e, capture_output=True, text=True, timeout=3600)
             sigs = [line.split("signature:", 1)[1].strip() for line in r.stdout.splitlines() if "signature:" in line]
             out[p] = {"rc": r.returncode, "violations": sigs}
@@ -88,7 +90,7 @@ def run_checks(sid, props, runs=None):
     return out
 
 
-def matrix(all_props=False):
+def matrix(all_props=False, runs=None):
     claims = [c["id"] for c in json.load(open(os.path.join(VERIF, "claims.json")))]
     rows = []
     for sid in sorted(os.listdir(SEEDED)):
@@ -99,7 +101,7 @@ def matrix(all_props=False):
         # "also_run": properties whose statement the change really violates when that is not (only) the one its author
         # aimed at (a check must stay silent about what its own statement does not say)
         props = claims if all_props else [meta["property"]] + [p for p in meta.get("also_run", []) if p in claims]
-        res = run_checks(sid, props)
+        res = run_checks(sid, props, runs)
         caught = [p for p, r in res.items() if r["rc"] == 1]
         broken = [p for p, r in res.items() if r["rc"] not in (0, 1)]
         sig = "; ".join((res[meta["property"]]["violations"] or
@@ -127,4 +129,5 @@ if __name__ == "__main__":
         props = sys.argv[3:] or [json.load(open(os.path.join(SEEDED, sid, "meta.json")))["property"]]
         print(json.dumps(run_checks(sid, props), indent=1))
     elif cmd == "matrix":
-        matrix("--all-props" in sys.argv)
+        runs = [int(a.split("=")[1]) for a in sys.argv if a.startswith("--runs=")]
+        matrix("--all-props" in sys.argv, runs[0] if runs else None)
